@@ -283,7 +283,9 @@ def rewrite_rules(ctx, te, rule="C11.rewrite"):
     for extra in (0, 1):
         env = dict(_formula_env(te))
         env["clauses"] = [A, B] + ([C] if extra else [])
-        env["fresh"] = Lit("s")
+        ctx.require(len(f.params) == 2, "__switching_combination: expected (clauses, counter) parameters")
+        cname = f.params[1]
+        env[cname] = Lit("s")
         local = dict(env)
         for s in f.node.body:
             if isinstance(s, ast.Assign) and isinstance(s.targets[0], ast.Name) and s.targets[0].id != "new_fresh":
@@ -292,7 +294,9 @@ def rewrite_rules(ctx, te, rule="C11.rewrite"):
         ctx.require(len(rets) == 2, "__switching_combination: expected two returns")
         r = rets[0] if extra else rets[1]
         tup = r.value
-        ctx.require(isinstance(tup, ast.Tuple) and len(tup.elts) == 2, "__switching_combination: return is not a pair")
+        if not (isinstance(tup, ast.Tuple) and len(tup.elts) == 2):
+            ctx.bad(rule, f, "switching result", "the switching step returns `%s`, not (formula, next fresh): it consumes a variable but its callers are not told, so the counter cannot be threaded" % ast.unparse(tup)[:60], r)
+            continue
         rhs = te.eval(tup.elts[0], local, f)
         lhs = Formula("or", [env["clauses"]])
         cex = equivalent(lhs, rhs, ["A", "B", "C", "s"][: 2 + extra] + ["s"], project=["s"])
@@ -348,6 +352,34 @@ def rewrite_rules(ctx, te, rule="C11.rewrite"):
         ctx.check(F.assigns("formula")[:3] == steps and F.returns() == ["(formula, next_variable)"], rule, f, name,
                   "eliminate Iff/If, push negations, distribute; no new variable (next_variable returned unchanged)",
                   "%s pipeline changed: %s returns %s" % (name, F.assigns("formula")[:3], F.returns()))
+    # counter threading: every step is given the most recently produced counter of its branch, as a bare name
+    ds = ctx.fn("logic:__distribute_ors_switching")
+    COUNTER_CALLS = {"__distribute_ors_switching": 1, "__switching_combination": 1}
+    top = [x for x in ds.node.body if isinstance(x, ast.If)]
+    branches = []
+    cur = top[0] if top else None
+    while cur is not None:
+        branches.append(cur.body)
+        cur = cur.orelse[0] if len(cur.orelse) == 1 and isinstance(cur.orelse[0], ast.If) else None
+    n_thr = 0
+    for br in branches:
+        produced = [(0, ds.params[1])]
+        sts = [x for b in br for x in ([b] + [y for y in ast.walk(b) if isinstance(y, ast.stmt) and y is not b])]
+        sts.sort(key=lambda x: x.lineno)
+        for x in sts:
+            own = [n for n in ast.walk(x.value)] if isinstance(x, (ast.Assign, ast.Return, ast.Expr)) and x.value is not None else []
+            for c in own:
+                if isinstance(c, ast.Call) and isinstance(c.func, ast.Name) and c.func.id in COUNTER_CALLS and len(c.args) > COUNTER_CALLS[c.func.id]:
+                    n_thr += 1
+                    arg = ast.unparse(c.args[COUNTER_CALLS[c.func.id]])
+                    latest = [nm for ln, nm in produced if ln < x.lineno][-1]
+                    ctx.check(arg == latest, rule, ds, "%s gets %s" % (c.func.id, arg), "%s is given the latest counter `%s`" % (c.func.id, latest),
+                              "%s is given `%s` as its fresh counter, but the counter last produced on this path is `%s` (advanced by the recursive conversion of the children): "
+                              "switching variables are handed out twice" % (c.func.id, arg, latest), c)
+            if isinstance(x, ast.Assign) and isinstance(x.targets[0], ast.Tuple) and len(x.targets[0].elts) == 2 and isinstance(x.targets[0].elts[1], ast.Name):
+                produced.append((x.lineno, x.targets[0].elts[1].id))
+    ctx.require(n_thr >= 3, "__distribute_ors_switching: only %d counter-passing calls found" % n_thr)
+
     f = ctx.fn("logic:to_cnf_switching")
     F = Facts(f)
     ctx.check(F.assigns("formula")[:2] == ["__eliminate_iff(f)", "__apply_demorgan(__eliminate_iff(f))"] and
@@ -378,6 +410,11 @@ def rewrite_rules(ctx, te, rule="C11.rewrite"):
         body.count("raise ValueError") == 2 and "or_list.append(l)" in body
     ctx.check(ok, "C11.json", f, "cnf_to_json", "Or of int / Not(int) -> signed ints; bare int -> unit clause; anything else raises",
               "cnf_to_json changed shape")
+    orb = [x for x in statements(f.node) if isinstance(x, ast.If) and ast.unparse(x.test) == "isinstance(o, Or)"]
+    ctx.check(len(orb) == 1 and ast.unparse(orb[0].body[-1]) == "or_list.append(l)", "C11.json", f, "every disjunction becomes a clause",
+              "every Or -- also the empty one, which is False -- contributes exactly one clause, unconditionally",
+              "cnf_to_json appends the literal list of an Or only under a condition: an empty disjunction (False) is dropped and an unsatisfiable formula becomes satisfiable",
+              orb[0] if orb else f.node)
     F = Facts(f)
     ctx.check(F.iters()[:2] == ["formula", "a.input_list"], "C11.json", f, "cnf_to_json order", "every clause of every conjunction is emitted", "cnf_to_json iteration changed: %s" % F.iters()[:2])
 
